@@ -197,6 +197,61 @@ fn run<G: Group>(sc: &Scenario, st: &mut RunStats) -> Vec<Violation> {
         out.push(Violation::new("harness:observation_unavailable", "observe", format!("verifier drew {} challenges, expected {}", base.len(), rounds + 3)));
         return out;
     }
+    // a prover message that cannot be absorbed (identity encoding as one L_j or R_j), in every mode: the verifier
+    // has to refuse; an Ok reached with fewer challenges than the protocol has means later messages were never bound
+    if rounds > 0 {
+        let j = (sc.fault_seed % rounds as u64) as usize;
+        let left = (sc.fault_seed >> 8) & 1 == 0;
+        let mut p2 = ProofParts::parse(&msg.proof).expect("layout");
+        let id_enc = G::enc(&G::identity());
+        if left {
+            p2.lr[j].0 = id_enc;
+        } else {
+            p2.lr[j].1 = id_enc;
+        }
+        let m2 = Msg::<G> {
+            bits: msg.bits,
+            cap: msg.cap,
+            ext: msg.ext,
+            pc: msg.pc.clone(),
+            commitments: msg.commitments.clone(),
+            promises: msg.promises.clone(),
+            seed: msg.seed,
+            ctx: msg.ctx.clone(),
+            proof: p2.to_bytes(),
+            force_seed: msg.force_seed,
+        };
+        for action in [VerifyAction::VerifyOnly, VerifyAction::RecoverAndVerify, VerifyAction::RecoverOnly] {
+            match member_challenges::<G>(&[&m2], 0, action) {
+                Ok(Some((ok, ch))) => {
+                    st.evals += 1;
+                    st.fault("unabsorbable_round_message");
+                    if ok && ch.len() < rounds + 3 {
+                        out.push(Violation::new(
+                            "accepted_with_prover_messages_left_unabsorbed",
+                            format!("{}{} {}", if left { "L" } else { "R" }, j, action_name(action)),
+                            format!(
+                                "{:?}: {}_{} is the identity encoding; {} returned Ok after drawing {} of {} challenges: every message after round {} is bound to nothing",
+                                sc.cfg,
+                                if left { "L" } else { "R" },
+                                j,
+                                action_name(action),
+                                ch.len(),
+                                rounds + 3,
+                                j
+                            ),
+                        ));
+                        return out;
+                    }
+                },
+                Ok(None) => {},
+                Err(c) => {
+                    out.push(Violation::new("verifier_panicked", "panic", format!("{:?}", c)));
+                    return out;
+                },
+            }
+        }
+    }
     // prover and verifier derive the same challenges on the honest message
     let pc = prover_challenges::<G>(&sc.cfg, &sc.wit, &sc.ctx, sc.rng_seed);
     st.evals += 1;
